@@ -126,6 +126,11 @@ var resetCmd = &cobra.Command{
 			return errors.New("only one argument is acceptible. argument format is 'HEAD@{number}'")
 		}
 
+		// HEAD may name a branch that does not exist (a damaged HEAD file): there is nothing to move
+		if client.Head.Commit == nil {
+			return fmt.Errorf("your current branch '%s' does not have any commits yet", client.Head.Reference)
+		}
+
 		// get log record
 		reflog, err := store.NewReflog(client.RootGoitPath, client.Head, client.Refs)
 		if err != nil {
